@@ -191,6 +191,25 @@ def fqRemove (ps : Pipes) (s : Socket) (k : Ident) : Pipes × Socket :=
   | some rd => (dropR ps rd.pipe, { s with fqStreams := ierase s.fqStreams k })
   | none => (ps, s)
 
+/-- `peer_disconnected`, per backend, as coded -/
+def peerDisconnected (ps : Pipes) (s : Socket) (k : Ident) : Pipes × Socket :=
+  let ps := match ilookup s.peers k with
+    | some wr => dropW ps wr.pipe
+    | none => ps
+  let s := { s with peers := ierase s.peers k }
+  match s.typ with
+  | .req =>
+    match ilookup s.reqRd k with
+    | some rd => (dropR ps rd.pipe, { s with reqRd := ierase s.reqRd k })
+    | none => (ps, s)
+  | .pub =>
+    -- the subscriber entry owns the stop channel: its reader task ends at the next drain
+    (ps, { s with subsOf := ierase s.subsOf k,
+                  readers := s.readers.map (fun e => if e.2.1 == k then (e.1, e.2.1, e.2.2.1, false) else e) })
+  | .xpub => let (ps, s) := fqRemove ps s k; (ps, { s with subsOf := ierase s.subsOf k })
+  | .push => (ps, s)
+  | _ => fqRemove ps s k
+
 inductive FqRes
   | pending
   | got (k : Ident) (r : ReadRes)     -- `Ready(Some((k, res)))`: an item or an error
@@ -211,29 +230,14 @@ def fqPoll : Nat → Pipes → Nat → Socket → FqRes × Pipes × Socket
         let (r, ps, rd) := readerPoll (readFuel ps rd) ps rd (.fq sid t k)
         match r with
         | .pending => fqPoll fuel ps sid { s with fqStreams := s.fqStreams ++ [(k, rd)] }
-        | .eof => fqPoll fuel (dropR ps rd.pipe) sid s      -- peer gone: the stream is not put back
+        | .eof =>
+          -- peer gone: the stream is not put back, and the queue's owner is told
+          -- (`on_stream_end` → the backend's `peer_disconnected`): the peer is forgotten
+          let (ps, s) := peerDisconnected (dropR ps rd.pipe) s k
+          fqPoll fuel ps sid s
         | res =>
           (.got k res, ps, { s with fqHeap := (s.fqCounter, k) :: s.fqHeap, fqCounter := s.fqCounter + 1,
                                     fqStreams := s.fqStreams ++ [(k, rd)] })
-
-/-- `peer_disconnected`, per backend, as coded -/
-def peerDisconnected (ps : Pipes) (s : Socket) (k : Ident) : Pipes × Socket :=
-  let ps := match ilookup s.peers k with
-    | some wr => dropW ps wr.pipe
-    | none => ps
-  let s := { s with peers := ierase s.peers k }
-  match s.typ with
-  | .req =>
-    match ilookup s.reqRd k with
-    | some rd => (dropR ps rd.pipe, { s with reqRd := ierase s.reqRd k })
-    | none => (ps, s)
-  | .pub =>
-    -- the subscriber entry owns the stop channel: its reader task ends at the next drain
-    (ps, { s with subsOf := ierase s.subsOf k,
-                  readers := s.readers.map (fun e => if e.2.1 == k then (e.1, e.2.1, e.2.2.1, false) else e) })
-  | .xpub => let (ps, s) := fqRemove ps s k; (ps, { s with subsOf := ierase s.subsOf k })
-  | .push => (ps, s)
-  | _ => fqRemove ps s k
 
 /-- registration at the end of a successful handshake (`MultiPeerBackend::peer_connected`),
 after SUB has re-announced its subscriptions -/
@@ -507,8 +511,14 @@ def reqRecvPoll (w : World) (sid : Nat) : World × POut :=
             | some r => (w, .ready (.okMsg r))
             | none => (w, .ready (.err .other))
           | .item _ => (w, .ready (.err .other))              -- "Received non-message frame"
-          | .err e => (w, .ready (.err e))
-          | _ => (w, .ready (.err .noMessage))
+          | .err e =>
+            -- the connection has failed: the peer is forgotten (both halves released)
+            let (ps, s') := peerDisconnected w.pipes { s with current := none } k
+            (setSock { w with pipes := ps } sid s', .ready (.err e))
+          | _ =>
+            -- … or ended
+            let (ps, s') := peerDisconnected w.pipes { s with current := none } k
+            (setSock { w with pipes := ps } sid s', .ready (.err .noMessage))
 
 /-! ### sends -/
 
@@ -526,7 +536,10 @@ def sendToPoll (w : World) (sid : Nat) (k : Ident) (st : SendSt) (setCurrent : B
       let w := { w with pipes := ps }
       match r with
       | .pending => (setSock w sid s, .sendTo sid k st setCurrent, .pending)
-      | .error => (setSock w sid s, .done, .ready (.err .io))        -- the peer stays registered
+      | .error =>
+        -- the connection has failed: the peer is forgotten, as in the round-robin senders
+        let (ps, s') := peerDisconnected w.pipes s k
+        (setSock { w with pipes := ps } sid s', .done, .ready (.err .io))
       | .done =>
         let s := if setCurrent then { s with current := some k } else s
         (setSock w sid s, .done, .ready .okUnit)
